@@ -702,6 +702,8 @@ pub fn sweep(ctx: &Ctx, plan: &SweepPlan, rep: &mut Report, checker: &Checker) -
     // reach the &str entry points
     spaces.push(Box::new(ListSpace { label: "E4.utf8".into(), items: utf8_strings(if ctx.quick() { 5 } else { 6 }),
         what: "every string of 1..=5 [6] characters over an 11-character alphabet with 2/3/4-byte and case-mapping-hazard characters; a multi-byte character inserted at / replacing every byte offset of 7 base texts up to 100 bytes, and the prefixes ending there".into() }));
+    // histories of two calls on the stateless entry points
+    spaces.push(Box::new(PairSpace { label: "E3.pairs".into(), items: history_menu() }));
     // one identifier of every canonical length (fixed-size buffers, length fast paths)
     spaces.push(Box::new(ListSpace { label: "E2.ladder".into(), items: length_ladder(if ctx.quick() { 300 } else { 1100 }, !plan.langid_only),
         what: "for every byte length up to 300 [1100]: identifiers of exactly that canonical length (4 language-id prefixes filled with distinct unsorted variants; for locales also with the length spent on attributes, keyword values, tfield values, tlang variants and private tags)".into() }));
